@@ -675,11 +675,9 @@ mutual
         let ms := (← get).methods
         for (s', t') in [(Ty.ptr s, t), (Ty.ptr s, Ty.ptr t), (s, Ty.ptr t)] do
           if !(cx.sigSource == s' && cx.sigTarget == t') then
-            match indexGet (lookupIndex ms) s' t' cx.available with
-            | .hit i => match ms[i]? with
-              | some m => if !m.cfg.rawFieldSettings.isEmpty then fail .overlapping
-              | none => pure ()
-            | _ => pure ()
+            -- every method registered for the overlapping signature, whatever contexts it requires (Index.All)
+            if (lookupIndex ms).any (fun (i, s2, t2, _) => s2 == s' && t2 == t' &&
+                (match ms[i]? with | some m => !m.cfg.rawFieldSettings.isEmpty | none => false)) then fail .overlapping
       let cfg := cx.cfg.common
       let sPtr := isPtr env s
       let tPtr := isPtr env t
